@@ -143,6 +143,8 @@ def handle (id : Nat) (hdr : List Sexp) (body : List Sexp) : String :=
   | some _, none =>
     -- e.g. a classification helper raised or answered with a non-Boolean: that is not a consistent classification
     s!"R {id} CORR=diff SPEC=fail:unparsable-observation SPECM=ok | the observations of the implementation are outside the vocabulary"
-  | _, _ => s!"R {id} CORR=diff SPEC=ok SPECM=ok | unparsable case"
+  | _, _ =>
+    -- fail closed: a case line the driver cannot read is not "spec ok"
+    s!"R {id} CORR=diff SPEC=fail:unparsable-case SPECM=fail:unparsable-case | unparsable case"
 
 end AsynqModel.Drv.Decorators
